@@ -118,7 +118,11 @@ def run(rep, rng, tier, replay=None):
             elif all(math.isfinite(b2f(v)) for v in allf + c["m"]):
                 Mq = [[Fr(b2f(c["m"][i * n + j])) for j in range(n)] for i in range(n)]
                 err = l21_error_exact(Mq, fi["inverse"], n)
-                if err > tol * (1 + 1e-6) + 1e-300 and err > tol + 4e-16 * n * n:
+                # the routine evaluates inverse*M - 1 in binary64: its forward error is bounded by
+                # ~ n * 2^-53 * sum |inverse||M|; a true distance within that slack of the tolerance cannot be told apart
+                mags = sum(abs(b2f(fi["inverse"][i * n + k])) * abs(b2f(c["m"][k * n + j])) for i in range(n) for j in range(n) for k in range(n))
+                slack = 8 * n * 2.0**-53 * (mags + n)
+                if err > tol * (1 + 1e-6) + slack:
                     rep.violation("property", "Ok returned although |inverse*M - 1|_{2,1} = %r exceeds the tolerance %r" % (err, tol), case=c, failing_input=True)
         rep.sample(dict(n=n, kind=c["kind"], stability=c["stability"] and b2f(c["stability"]), outcome=fi["tag"]))
     # through sample(): with the test enabled an Err(MatrixError) of the decomposition is the result of the sample
